@@ -81,7 +81,7 @@ TRUSTED_EXTRA = ["numpy.polynomial.polynomial.polyval is modelled as its documen
 # (F) anchor fingerprints — budget steering only (DESIGN 2.3): a changed hash is neither an alarm nor a tie,
 # it doubles the quick correspondence budget
 ANCHORS = {
-    "nixio/data_array.py": {"_read_data": "e0cec47ff1b457d0", "polynom_coefficients": "6103c0c55fa3c006",
+    "nixio/data_array.py": {"_read_data": "e0cec47ff1b457d0", "polynom_coefficients": "ea9ff9b1c3a0b229",
                             "expansion_origin": "7b96ebea7ae5eeb0"},
     "nixio/util/util.py": {"apply_polynomial": "864ca2484ced393a", "check_attr_type": "ca867a6ddee28c6a"},
     "nixio/data_view.py": {"__init__": "09c7372ec9e74543", "_read_data": "309a3fa4d9c8303a",
